@@ -27,7 +27,8 @@ RULE = ("a case is a history of steps define(version k) / call(live version j, a
         "'cells' (each definition exec'd with its own source, as in a notebook), 'samefile' (several same-named definitions at different lines of one module file, all alive), 'lambda', 'nested', 'codeswap', 'reload' "
         "(module file rewritten + importlib.reload), and across fresh processes ('module' and '__main__' scripts, including "
         "sessions that change nothing, a process that stays alive with its version while fresh processes run the same or another version, and sessions in which one function object is cached by two Memory objects on two directories with calls alternating between them); distinct_nontrivial counts distinct histories with at least two versions and one "
-        "call of a version other than the latest")
+        "call of a version other than the latest"
+        " A third of the in-session calls go through a cloudpickled copy of the wrapper; a quarter of the in-session histories run with every func_code.py re-stamped to one instant (coarse timestamps); module sessions rewrite the source file between import and first call in 60 % of the version changes.")
 ASSUMPTIONS = [
     "a version's value is ('v<k>', a): tag equality decides which code computed it",
     "style 'reload': joblib reads a function's source from its file at the first call of its wrapper, so each definition "
